@@ -112,7 +112,8 @@ func (k Keeper) ToggleClient(
 	}
 
 	k.SetClientState(ctx, chainName, newClientState)
-	if err := clientState.Initialize(ctx, k.cdc, k.ClientStore(ctx, chainName), newConsensusState); err != nil {
+	// the client store is initialised the way the new client type requires
+	if err := newClientState.Initialize(ctx, k.cdc, k.ClientStore(ctx, chainName), newConsensusState); err != nil {
 		return err
 	}
 	k.SetClientConsensusState(ctx, chainName, newClientState.GetLatestHeight(), newConsensusState)
